@@ -77,3 +77,7 @@ Theorem C11_go_split_advance :
 Proof. exact split_advance_ok. Qed.
 Print Assumptions C11_go_split_advance.
 
+Theorem C11_go_iter_more : forall (qlen next nbuckets : N),
+  go_iter_more (Z.of_N qlen) (Z.of_N next) (Z.of_N nbuckets) = ((qlen =? 0)%N && (next <? nbuckets)%N).
+Proof. exact iter_more_ok. Qed.
+Print Assumptions C11_go_iter_more.
